@@ -37,7 +37,7 @@ NAME_PARTS = ["etc", "vmware", "file1", "a b", "ünï", "lib64", "x" * 40, "conf
 
 
 def budget(tier):
-    return 8000 if tier == "quick" else 50000
+    return 14000 if tier == "quick" else 50000
 
 
 def content(m) -> bytes:
